@@ -117,6 +117,15 @@ func gen(p protos.P, limit uint32, r *core.Rand, routes map[string]string, valid
 		}
 		b := append(u32(v), f[4:4+r.Intn(len(f)-4)]...)
 		return input{Class: "oversize-announced", Bytes: b, Oversz: true}
+	case x < 14 && (p.Name == "thrift-binary" || p.Name == "thrift-struct") && len(f) > 8:
+		// THeader framing: {4 byte frame length}{frame}: a length above the read limit (but within what the thrift
+		// library itself accepts, < 2^30), most of the payload withheld
+		v := []uint32{limit + 1, limit + 4096, limit*4 + 1<<16, 1<<30 - 1}[r.Intn(4)]
+		if v <= limit || v >= 1<<30 {
+			return input{Class: "random-bytes", Bytes: r.Bytes(7)}
+		}
+		b := append(u32(v), f[4:4+r.Intn(len(f)-4)]...)
+		return input{Class: "thrift-oversize-announced", Bytes: b, Oversz: true}
 	case x < 15 && sized && p.Name == "raw":
 		// inner length fields of the raw header
 		b := append([]byte(nil), f...)
